@@ -49,6 +49,13 @@ def body(chk):
         for rpc in (2, 3, 4, 1024):  # midnight on a boundary between groups of records_per_chunk lines, and inside a group
             cases.append(dict(level=level, seed=chk.seed + 90, k=None, files=("IMG",), images=(("HH", None, 6, 1), ("HV", None, 2, 1)), fs="local",
                               line_overrides=lo, tag=f"midnight-rpc{rpc}", rpc=rpc))
+    # line numbers as they come: consecutive, with a repeat followed by a skip (still non-decreasing, last - first + 1 = count), gaps only,
+    # repeats only, constant, decreasing, starting at 0 / at a large number: one entry per line holding the value written
+    for j, nums in enumerate(([1, 2, 3, 3, 5, 6], [10, 12, 12, 13], [1, 2, 4, 5, 7], [1, 1, 2, 2], [7, 7, 7], [6, 5, 4, 3, 2, 1], [0, 1, 2], [65534, 65535, 65536, 65536, 65538],
+                              [3, 3, 5], [1, 3, 3, 4, 5, 5, 7])):
+        lo = {(0, ln, "sar_image_data_line_number"): v for ln, v in enumerate(nums)}
+        cases.append(dict(level=("1.5", "1.1")[j % 2], seed=chk.seed + 97 + j, k=None, files=("IMG",), images=(("HH", None, len(nums), 2), ("HV", None, 2, 1)), fs="local",
+                          line_overrides=lo, tag=f"line-numbers:{'-'.join(map(str, nums))}", rpc=(2, 1024, 3)[j % 3]))
     n_rand = 24 if chk.tier == "quick" else 800
     for j in range(n_rand):
         level = ("1.5", "1.1", "3.1")[j % 3]
